@@ -293,3 +293,110 @@ pub fn project_from_json(v: &Value) -> Option<Project> {
         locales_dir: v["locales_dir"].as_str().unwrap_or("locales").to_string(),
     })
 }
+
+
+// ------------------------------------------------------------------ grammar-adversarial variants
+//
+// A by-product of having a project generator: one value of a generated project is replaced by a value
+// from the list the property's quantifier names (unbalanced `{{`, `<`, `$t(`; multibyte characters next to
+// delimiters; whitespace inside tags; NaN / inf / overflowing range bounds; ranges without fallback hit by a
+// literal count; `$t` inside plural forms and range branches; reference cycles; deep nesting; odd keys).
+// Such a project is only loaded fault-free: it must return a result or an error, never panic, abort or hang.
+
+fn adversarial_values(target_key: &str) -> Vec<Value> {
+    let nest = |depth: usize| -> Value {
+        let mut v = json!("leaf");
+        for i in 0..depth {
+            v = json!({ format!("n{i}"): v });
+        }
+        v
+    };
+    vec![
+        json!("<b>x</b\u{3000}>"), json!("<b >x</ b >"), json!("<\u{3000}b>x</b>"), json!("<b>é</bé>"), json!("<é>x</é>"), json!("<b>x</b><b>"), json!("</b>x<b>"),
+        json!("x <<b>y"), json!("<é<b>x</b>"), json!("1 < 2 is <b>true</b>"), json!("<<<>>>"), json!("<b<i>x</i></b>"), json!("<a><b>x</a></b>"),
+        json!([[null, 0], ["y"]]), json!([[{"a": "b"}, 0], ["y"]]), json!([[null]]), json!(["i32", [null, 1], ["y"]]), json!([["x", null], ["y"]]),
+        json!("<b><b><b>x</b>"), json!("<>x</>"), json!("< >x</ >"), json!("<b/>"), json!("é<b>é</b>é\u{a0}"), json!("<b\u{a0}>x</b\u{a0}>"),
+        json!("{{ a"), json!("a }}"), json!("{{}}"), json!("{{ }}"), json!("{{ a, }}"), json!("{{ a, number( }}"), json!("{{ é }}"), json!("{{ a,\u{3000}number }}"),
+        json!("{{ a, number(grouping_strategy: ) }}"), json!("{{ a, number)( }}"), json!("{{ a, list(list_type: and; ;;; :) }}"), json!("{{ a }}{{ a, number }}{{ a, date }}"),
+        json!("{{ count, number }}"), json!("{{ 1a }}"), json!("{{ fn }}"), json!("{{ a b }}"), json!("{{ {{ a }} }}"),
+        json!("$t("), json!("$t()"), json!("$t(a"), json!("$t(a,"), json!("$t(a, {)"), json!("$t(a, {\"x\": })"), json!("$t(é)"), json!("$t(a.b.c.d.e)"), json!("$t(:a)"), json!("$t(ns:)"),
+        json!("$t(a, {}) trailing"), json!("$t(a, {\"count\": 99999999999999999999})"), json!("$t(a, {\"count\": -1})"), json!("$t(a, {\"count\": 1.5})"), json!("$t(a, {\"count\": \"x\"})"),
+        json!("$t(a, {\"count\": \"{{ a }} {{ b }}\"})"), json!(format!("$t({target_key})")), json!(format!("$t({target_key}, {{\"count\": 1000000}})")), json!(format!("$t({target_key}, {{\"count\": -7}})")),
+        json!(format!("a $t({target_key}) b $t({target_key}) c")), json!("$t(a, {\"x\": \"$t(a, {\\\"x\\\": 1})\"})"), json!("$t(a,{\"é\":\"é\"})é"), json!("$t(a, [1])"), json!("$t(a, {\"x\": null})"),
+        json!(["f32", ["x", "NaN"]]), json!(["f64", ["x", "inf.."], ["y"]]), json!(["f64", ["x", "-inf..inf"], ["y"]]), json!(["f32", ["x", "@@RAW:1e400@@"], ["y"]]), json!(["f64", ["x", "@@RAW:NaN@@"], ["y"]]), json!(["f64", ["x", "@@RAW:.inf@@"], ["y"]]), json!(["u8", ["x", 300], ["y"]]), json!(["u8", ["x", -1], ["y"]]),
+        json!(["i8", ["x", "200..300"], ["y"]]), json!([["x", "5..1"], ["y"]]), json!(["i32", ["x", "a..b"], ["y"]]), json!(["zz", ["x", 1]]), json!([["x", 1.5], ["y"]]), json!([[["x", 1]]]), json!([]),
+        json!(["u8"]), json!([[]]), json!([["x", "_"], ["y", "_"]]), json!([["x", "_"], ["y", 1]]), json!(["f32", ["x", 1.0]]), json!([["x", 1], ["y", 2]]), json!(["u64", ["x", "18446744073709551615.."]]),
+        json!(["i64", ["x", "..=-9223372036854775808"], ["y"]]), json!([["x", "1..=2", "3|4", "|"], ["y"]]), json!([["x", ""], ["y"]]), json!([[1, 2]]), json!([["x", [1, [2]]], ["y"]]), json!([{"value": "x"}]),
+        json!([["$t(a)", 1], ["{{ count }} $t(a)"]]), json!(["u8", ["x", "0..=255"]]), json!(["i8", ["x", "..0"], ["y", "0.."]]),
+        json!("@@RAW:1e400@@"), json!("@@RAW:-1e400@@"), json!("@@RAW:99999999999999999999999999@@"), json!("@@RAW:Infinity@@"), json!("@@RAW:.nan@@"), json!("@@RAW:0x10@@"), json!(-0.0), json!(18446744073709551615u64), json!(-9223372036854775808i64), json!(null), json!(true), json!({}), json!({"": "x"}), json!({"a b": "x"}), json!({"1abc": "x"}),
+        json!({"fn": "x"}), json!({"é": "x"}), json!({"self": "x"}), json!({"a-b": "x {{ v }}", "a_b": "y"}), nest(40), nest(200),
+    ]
+}
+
+pub fn generate_adversarial(seed: u64, index: u64) -> Project {
+    let mut p = generate_project(seed ^ 0xAD7E, index);
+    p.id = format!("adv/{seed}/{index}");
+    let mut rng = Rng::for_run(seed ^ 0x0ADD_BAD5, index);
+    let lf = rng.pick(&p.locale_files).clone();
+    let text = String::from_utf8_lossy(&p.files[&lf.rel]).to_string();
+    // the generator's own emitters produce JSON for json/json5 and YAML for yaml: re-read, patch, re-emit
+    let mut v: Value = match FORMAT {
+        "yaml" => {
+            #[cfg(feature = "yaml_files")]
+            {
+                serde_yaml::from_str(&text).unwrap_or(json!({}))
+            }
+            #[cfg(not(feature = "yaml_files"))]
+            {
+                json!({})
+            }
+        }
+        _ => serde_json::from_str(text.trim_start_matches("// generated (json5)\n")).unwrap_or(json!({})),
+    };
+    let obj = v.as_object_mut().cloned().unwrap_or_default();
+    let keys: Vec<String> = obj.keys().cloned().collect();
+    let existing = if keys.is_empty() { "k0_0".to_string() } else { rng.pick(&keys).clone() };
+    let values = adversarial_values(&existing);
+    let n = 1 + rng.below(2);
+    let mut obj = obj;
+    for _ in 0..n {
+        let val = rng.pick(&values).clone();
+        match rng.below(4) {
+            0 if !keys.is_empty() => {
+                obj.insert(rng.pick(&keys).clone(), val); // replace an existing key's value
+            }
+            1 if !keys.is_empty() => {
+                // a plural form of an existing key, or a conflicting form
+                let k = rng.pick(&keys).clone();
+                let form = rng.pick(&["_one", "_other", "_ordinal_other", "_ordinal_one", "_zero", "_many"]);
+                obj.insert(format!("{k}{form}"), val);
+            }
+            2 => {
+                obj.insert(format!("adv_{}", rng.below(3)), val);
+                // self and mutual references
+                obj.insert("adv_self".into(), json!("$t(adv_self)"));
+                obj.insert("adv_m1".into(), json!("$t(adv_m2) x"));
+                obj.insert("adv_m2".into(), json!("$t(adv_m1, {\"count\": 1}) y"));
+            }
+            _ => {
+                obj.insert(format!("adv_{}", rng.below(3)), val);
+            }
+        }
+    }
+    let (out, _) = emit(&Value::Object(obj));
+    // raw tokens (numbers no JSON value can carry: overflowing, NaN, infinities, hex) are spliced into the text
+    let mut out = out;
+    while let Some(start) = out.find("@@RAW:") {
+        let Some(len) = out[start..].find("@@\"").or_else(|| out[start..].find("@@'")).or_else(|| out[start..].find("@@")) else { break };
+        let raw = out[start + 6..start + len].to_string();
+        let mut a = start;
+        let mut b = start + len + 2;
+        if a > 0 && (out.as_bytes()[a - 1] == b'"' || out.as_bytes()[a - 1] == b'\'') && b < out.len() && (out.as_bytes()[b] == b'"' || out.as_bytes()[b] == b'\'') {
+            a -= 1;
+            b += 1;
+        }
+        out.replace_range(a..b, &raw);
+    }
+    p.files.insert(lf.rel.clone(), out.into_bytes());
+    p
+}
